@@ -305,10 +305,14 @@ def run(ck):
         raise AnalysisError(f"{cluster.where}: cluster_indels takes no parameter")
     src = params[0].name
     main = None
+    from ..norm import norm_in
     for lp in loops:
-        it = lp.iter
-        base = it.value if isinstance(it, ast.Subscript) else it
-        if isinstance(base, ast.Name) and base.id == src and isinstance(lp.target, ast.Name):
+        try:
+            it_t = norm_in(ctx, cluster, lp.iter)
+        except AnalysisError:
+            continue
+        base = it_t[1] if it_t[0] in ("slice", "idx") else it_t
+        if base == V(src) and isinstance(lp.target, ast.Name):
             main = lp
     if main is None:
         raise AnalysisError(f"{cluster.where}: loop over the input calls not found")
@@ -413,18 +417,19 @@ def run(ck):
 
     # ------------------------------------------------------------------ C20.3 consumer indices / sort key
     # the blur distance test uses the RefStop slot (second component of the sort key)
-    for n in ast.walk(writer.node):
-        if isinstance(n, ast.Call) and isinstance(n.func, ast.Name) and n.func.id == "sorted":
-            for kw in n.keywords:
-                if kw.arg == "key":
-                    k = kw.value
-                    if isinstance(k, ast.Call) and ast.unparse(k.func).endswith("itemgetter"):
-                        idxs = [a.value for a in k.args if isinstance(a, ast.Constant)]
-                        ck.judge(idxs == [ix["Chromosome"], ix["RefStop"]], "C20.3", "write_indel_file:sort-key",
-                                 where(writer, n), "calls are sorted by (Chromosome, RefStop) before clustering",
-                                 found=str(idxs), required=str([ix["Chromosome"], ix["RefStop"]]))
-                    else:
-                        raise AnalysisError(f"{where(writer, n)}: sort key not recognised: {ast.unparse(k)}")
+    wpaths = [pa for pa in explore(ck, writer, unroll=(0, 1)) if pa.outcome in ("fall", "return")]
+    wpa = max(wpaths, key=lambda q: len(q.events))
+    sort_keys = {}
+    for t, facts_, node, kind in path_terms(wpa):
+        for x in T.subterms(t):
+            if x[0] == "call" and x[1] == "sorted" and dict(x[3]).get("key") is not None:
+                sort_keys.setdefault((dict(x[3])["key"], x[2]), node)
+    ck.floor("C20.3 keyed sorts in write_indel_file", len(sort_keys), 1)
+    want_key = ("tuple", (T.mk_idx(("bv", 0), C(ix["Chromosome"])), T.mk_idx(("bv", 0), C(ix["RefStop"]))))
+    for (k, _sorted_what), node in sort_keys.items():
+        ck.judge(k[0] == "lam" and k[1] == 1 and k[2] == want_key, "C20.3", "write_indel_file:sort-key",
+                 where(writer, node), "calls are sorted by (Chromosome, RefStop) before clustering",
+                 found=T.show(k)[:120], required=f"key = (slot {ix['Chromosome']}, slot {ix['RefStop']})")
     first_cond = None
     for pa in body_paths:
         for c, tv, node in pa.state.assumptions:
@@ -439,20 +444,25 @@ def run(ck):
              "the merge distance is measured on the RefStop slot the calls were sorted by, inclusive of blur",
              found=T.show(c), required=T.show(want))
     # every cluster_indels input is the sorted list
-    sorted_vars = set()
     calls_ok = 0
-    for n in ast.walk(writer.node):
-        if isinstance(n, ast.Assign) and isinstance(n.value, ast.Call) and isinstance(n.value.func, ast.Name) \
-                and n.value.func.id == "sorted" and isinstance(n.targets[0], ast.Name):
-            sorted_vars.add(n.targets[0].id)
-    for n in ast.walk(writer.node):
-        if isinstance(n, ast.Call) and isinstance(n.func, ast.Name) and n.func.id == "cluster_indels":
-            a = n.args[0] if n.args else None
-            good = isinstance(a, ast.Name) and a.id in sorted_vars or \
-                (isinstance(a, ast.Call) and isinstance(a.func, ast.Name) and a.func.id == "sorted")
-            calls_ok += 1
-            ck.judge(bool(good), "C20.3", f"write_indel_file:cluster-input@{calls_ok}", where(writer, n),
-                     "cluster_indels receives the sorted list", found=ast.unparse(n))
+    seen_apps = []
+    for t, facts_, node, kind in path_terms(wpa):
+        if kind == "foriter":
+            continue
+        for x in T.subterms(t):
+            if x[0] == "app" and x[1] == cluster.qualname and not any(x == y and node is n2 for y, n2 in seen_apps):
+                seen_apps.append((x, node))
+    # one judgement per call site (the same term shows up again wherever its value is used)
+    by_site = {}
+    for x, node in seen_apps:
+        by_site.setdefault(x, node)
+    for x, node in by_site.items():
+        a = list(dict(x[3]).values())[0] if x[3] else None
+        good = a is not None and a[0] == "call" and a[1] == "sorted" and dict(a[3]).get("key") == ("lam", 1, want_key) \
+            and not dict(a[3]).get("reverse")
+        calls_ok += 1
+        ck.judge(bool(good), "C20.3", f"write_indel_file:cluster-input@{calls_ok}", where(writer, node),
+                 "cluster_indels receives the list sorted by (Chromosome, RefStop)", found=T.show(x)[:200])
     ck.floor("C20.3 cluster_indels call sites", calls_ok, 2)
 
 
